@@ -94,7 +94,13 @@ def r_ledger2(root):
         if direct and not nested: inner = tr
     if inner is None: raise AnalysisError("the try block protecting _end_model_construction was not found")
     endf = defs["_end_model_construction"][0]
+    def _aname(x):
+        """attribute name given as a literal or as a module-level string constant"""
+        if isinstance(x, ast.Constant) and isinstance(x.value, str): return x.value
+        if isinstance(x, ast.Name): return const_str(x, t)
+        return None
     deleted = {x.attr for n in ast.walk(endf) if isinstance(n, ast.Delete) for x in n.targets if isinstance(x, ast.Attribute)}
+    deleted |= {_aname(c.args[1]) for c in calls(endf) if callee_name(c) == "delattr" and len(c.args) == 2 and _aname(c.args[1])}
     if MARKER not in deleted: raise AnalysisError("_end_model_construction no longer deletes the construction marker; rule L3 needs re-confirmation")
     for h in inner.handlers:
         inst += 1; ok3 = True
@@ -104,7 +110,7 @@ def r_ledger2(root):
             body, where = frontier.pop()
             for node in body:
                 for x in ast.walk(node):
-                    if isinstance(x, ast.Constant) and x.value in deleted and isinstance(getattr(x, "_parent", None), ast.Call) and callee_name(x._parent) in ("hasattr", "getattr"):
+                    if isinstance(x, (ast.Constant, ast.Name)) and _aname(x) in deleted and isinstance(getattr(x, "_parent", None), ast.Call) and callee_name(x._parent) in ("hasattr", "getattr") and len(x._parent.args) >= 2 and x._parent.args[1] is x:
                         ok3 = False
                         st = stmt_of(x)
                         out.append(Finding("C15", "C15.f", M, where, " ".join(ast.unparse(st).split())[:110], "the failure handler that protects the end of the construction filters the models by the construction marker, which _end_model_construction has already deleted for some of them: those models are neither removed from the repositories nor released", witness="a user-class __init__ or an object processor raising in the second of two files"))
@@ -118,10 +124,11 @@ def r_ledger2(root):
         ob("C18", "C18.d", M, "parse_tree_to_objgraph", "inner failure handler removes every model of the attempt", ok3)
     # L4: marker tests are existence tests
     startf = defs["_start_model_construction"][0]
-    stores_none = any(isinstance(n, ast.Assign) and any(isinstance(x, ast.Attribute) and x.attr == MARKER for x in n.targets) and isinstance(n.value, ast.Constant) and n.value.value is None for n in ast.walk(startf))
+    stores_none = any(isinstance(n, ast.Assign) and any(isinstance(x, ast.Attribute) and x.attr == MARKER for x in n.targets) and isinstance(n.value, ast.Constant) and n.value.value is None for n in ast.walk(startf)) \
+                  or any(callee_name(c) == "setattr" and len(c.args) == 3 and _aname(c.args[1]) == MARKER and isinstance(c.args[2], ast.Constant) and c.args[2].value is None for c in calls(startf))
     if stores_none:
         for n in ast.walk(t):
-            if isinstance(n, ast.Call) and callee_name(n) == "getattr" and len(n.args) >= 2 and isinstance(n.args[1], ast.Constant) and n.args[1].value == MARKER and len(n.args) == 3:
+            if isinstance(n, ast.Call) and callee_name(n) == "getattr" and len(n.args) >= 2 and _aname(n.args[1]) == MARKER and len(n.args) == 3:
                 par = getattr(n, "_parent", None)
                 is_value_test = isinstance(par, ast.Compare) or isinstance(par, (ast.If, ast.BoolOp, ast.UnaryOp, ast.comprehension, ast.IfExp, ast.ListComp))
                 if is_value_test:
